@@ -7,7 +7,7 @@ from checks import views
 
 def constants(tier):
     c = {"MaxD": 3, "MaxExt": 3, "MaxDepth": 2, "MaxDim": 5, "Bases": {0}, "OpNames": set(views.ALL_OPS),
-         "ParenArgs": 3, "ParenLean": True, "OneDimQuirk": True, "Emit": True}
+         "ParenArgs": 3, "ParenLean": True, "OneDimQuirk": False, "Emit": True}
     if tier == "thorough":
         c.update({"MaxDepth": 3, "ParenLean": True})
     return c
